@@ -15,7 +15,7 @@ FUNCTIONS = ['dd.bdd.BDD.add_var', 'dd.bdd.BDD.declare', 'dd.bdd.BDD._check_var'
              'dd.bdd.BDD._next_free_level', 'dd.bdd.BDD._init_terminal',
              'dd.bdd.BDD.var_at_level', 'dd.bdd.BDD.level_of_var', 'dd.bdd.BDD.var_levels']
 
-KINDS = ['new', 'new_level', 'existing', 'existing_level', 'declare_mixed']
+KINDS = ['new', 'new_level', 'existing', 'existing_level', 'declare_mixed', 'constructor_orders']
 
 
 def views_consistent(bdd):
@@ -43,10 +43,27 @@ class Harness:
         self.sh = base.Shadow()
         base.std_shadows(self.sh, self.B)
 
+    def constructor_orders(self):
+        import itertools
+        c = engine.CTX
+        L = self.L + 1
+        names = [chr(97 + i) for i in range(L)]
+        perms = list(itertools.permutations(range(L)))
+        perm = perms[c.choose(len(perms), 'insertion-order')]
+        items = [(names[i], i) for i in perm]
+        case = dict(harness='k10_addvar', args=dict(kind='constructor_orders', items=[list(x) for x in items]))
+        probs = ctor_check(self.B, items)
+        res = [dict(name='declaring_with_explicit_levels_in_any_order_gives_a_valid_manager',
+                    kind='property', status='sat' if probs else 'unsat', t=0.0,
+                    case=case if probs else None)]
+        return dict(outcome='constructed', goals=res, witness=case, expect=dict(outcome='returned'))
+
     def run(self):
         c = engine.CTX
         N, L = self.N, self.L
         kind = KINDS[c.choose(len(KINDS), 'kind')]
+        if kind == 'constructor_orders':
+            return self.constructor_orders()
         m = SymMgr(N, 0, L, with_cache=True)
         m.decl = 'choose'
         m.assume_pre()
@@ -147,8 +164,44 @@ class Harness:
                     expect=dict(outcome='returned', vars=dict(bdd.vars)))
 
 
+def ctor_check(B, items, cls=None):
+    """BDD(levels) / add_var with explicit levels given in any insertion
+    order: afterwards the terminal is at the bottom, the views agree, every
+    declared variable can be used and an unused one can be removed."""
+    from ..mgr import nodel_class
+    bdd = nodel_class(B)(dict(items))
+    L = len(items)
+    probs = []
+    if bdd._succ.get(1) != (L, None, None):
+        probs.append(f'terminal at {bdd._succ.get(1)} after BDD({dict(items)})')
+    if not views_consistent(bdd) or dict(bdd.vars) != dict(items):
+        probs.append(f'order views inconsistent: {bdd.vars} / {bdd._level_to_var}')
+    try:
+        for nm, lv in items:
+            u = bdd.var(nm)
+            if bdd._succ[abs(u)][0] != lv:
+                probs.append(f'var({nm}) at level {bdd._succ[abs(u)][0]}')
+        bad = concrete.check_inv(bdd, None)
+        if bad:
+            probs.append(bad[0])
+        bdd.collect_garbage()
+        bdd.undeclare_vars(items[0][0])
+        if items[0][0] in bdd.vars:
+            probs.append('unused variable not removed')
+    except Exception as e:
+        probs.append(f'declared variables unusable: {e!r}')
+    return probs
+
+
 def replay(case):
     B = concrete.fresh_dd()
+    if case.get('args', {}).get('kind') == 'constructor_orders':
+        probs = ctor_check(B, [tuple(x) for x in case['args']['items']])
+        if probs:
+            return dict(violates=True, key='add_var/out-of-order-declaration',
+                        detail=f'BDD({dict(map(tuple, case["args"]["items"]))}): ' + '; '.join(probs[:2]),
+                        observed=dict(outcome='returned'))
+        return dict(violates=False, detail='ok', observed=dict(outcome='returned'))
     ext = concrete.ext_of(case)
     bad0 = concrete.check_inv(concrete.install(case), ext)
     if bad0:
